@@ -1,4 +1,5 @@
 import SqlgrepModel.Lemmas.ValueOrder
+import SqlgrepModel.Lemmas.FloatOrder
 /-
 C16 — value equality, ordering and hashing agree and form a total order.
 
@@ -77,6 +78,85 @@ example : beq negZero posZero = true ∧ hashRepr negZero = hashRepr posZero := 
 -- non-vacuity of the transitivity hypotheses on a non-trivial triple
 example : cmp negInf negZero = .lt ∧ cmp negZero one = .lt ∧ cmp negInf one = .lt := by decide
 example : cmpList [.int 1, .null] [.int 1, .text [97]] = .lt := by decide
+
+/-! ## NEW (review gap 1): REAL values compare by numeric value — proved, no longer trusted
+
+The exact value of a finite REAL bit pattern is the dyadic number `F64.value n = (±mantissa, exponent)`
+(`Lemmas/FloatOrder.lean`; mantissa/exponent from `F64.mantExp`, the decomposition the model also uses
+for `cmpIntReal` and `{:.2}`), ordered by `Dy.cmp` / `<` / `Dy.Eqv` (cross-scaling with powers of two;
+`Dy.cmp_eq_scale`: independent of the common exponent, so it is the order of the numbers `m·2^e`).
+The theorems hold for every `Nat` pattern (only sign, exponent and fraction fields are looked at). -/
+
+/-- `F64.cmp` on finite patterns IS the comparison of the exact values. -/
+theorem real_cmp_is_value_cmp (a b : Nat) (ha : F64.isFinite a = true) (hb : F64.isFinite b = true) :
+    cmp (.real a) (.real b) = Dy.cmp (F64.value a) (F64.value b) := by
+  simp only [cmp]; exact F64.cmp_eq_value_cmp a b ha hb
+
+/-- a REAL is smaller in the order exactly when its value is smaller -/
+theorem real_lt_iff_value_lt (a b : Nat) (ha : F64.isFinite a = true) (hb : F64.isFinite b = true) :
+    cmp (.real a) (.real b) = .lt ↔ F64.value a < F64.value b := by
+  rw [real_cmp_is_value_cmp a b ha hb]; exact Iff.rfl
+
+/-- two REALs are equal in the order exactly when their values are equal -/
+theorem real_eq_iff_value_eq (a b : Nat) (ha : F64.isFinite a = true) (hb : F64.isFinite b = true) :
+    cmp (.real a) (.real b) = .eq ↔ Dy.Eqv (F64.value a) (F64.value b) := by
+  rw [real_cmp_is_value_cmp a b ha hb]; exact Iff.rfl
+
+/-- ... so `-0.0 = +0.0` and no other two distinct (non-NaN) bit patterns are equal -/
+theorem real_eq_iff_same_bits_or_zeros (a b : Nat) (ha : a < 2 ^ 64) (hb : b < 2 ^ 64)
+    (na : F64.isNaN a = false) (nb : F64.isNaN b = false) :
+    cmp (.real a) (.real b) = .eq ↔ (a = b ∨ (F64.mag a = 0 ∧ F64.mag b = 0)) := by
+  simp only [cmp]
+  rw [F64.cmp_eq_iff_bits a b na nb]
+  unfold F64.mag F64.signBit
+  have qa : a / 2 ^ 63 = 0 ∨ a / 2 ^ 63 = 1 := by omega
+  have qb : b / 2 ^ 63 = 0 ∨ b / 2 ^ 63 = 1 := by omega
+  rcases qa with qa | qa <;> rcases qb with qb | qb <;> simp only [qa, qb] <;> simp <;> omega
+
+/-- `-inf` is below every finite REAL and `+inf`; `+inf` is above every finite REAL -/
+theorem real_infinities (i j a : Nat) (hi : F64.isInf i = true) (si : F64.signBit i = true)
+    (hj : F64.isInf j = true) (sj : F64.signBit j = false) (ha : F64.isFinite a = true) :
+    cmp (.real i) (.real a) = .lt ∧ cmp (.real a) (.real j) = .lt ∧ cmp (.real i) (.real j) = .lt := by
+  simp only [cmp]
+  exact ⟨F64.neg_inf_lt_finite i a hi si ha, F64.finite_lt_pos_inf j a hj sj ha, F64.neg_inf_lt_pos_inf i j hi si hj sj⟩
+
+/-- NaN (what `impl Ord for Float` does after the REAL total-order repair: `partial_cmp`, and for
+unordered operands `is_nan().cmp(is_nan())`): any NaN pattern equals any NaN pattern (payload and
+sign are ignored) and is greater than every non-NaN REAL, `+inf` included. -/
+theorem real_nan (n m a : Nat) (hn : F64.isNaN n = true) (hm : F64.isNaN m = true) (ha : F64.isNaN a = false) :
+    cmp (.real n) (.real m) = .eq ∧ cmp (.real a) (.real n) = .lt ∧ cmp (.real n) (.real a) = .gt := by
+  simp only [cmp]
+  exact ⟨F64.cmp_nan_nan n m hn hm, F64.cmp_lt_nan a n ha hn, F64.cmp_nan_gt n a hn ha⟩
+
+/-- the value order used above is a genuine strict total order on numbers, not on representations -/
+theorem value_order_laws (a b c : Dy) :
+    ((a < b ∧ ¬ Dy.Eqv a b ∧ ¬ b < a) ∨ (¬ a < b ∧ Dy.Eqv a b ∧ ¬ b < a) ∨ (¬ a < b ∧ ¬ Dy.Eqv a b ∧ b < a)) ∧
+    (a < b → b < c → a < c) ∧ (Dy.Eqv a b → Dy.Eqv b c → Dy.Eqv a c) :=
+  ⟨Dy.trichotomy a b, Dy.lt_trans, Dy.eqv_trans⟩
+
+/-- ... and it does not depend on how a number is written: `(m·2^j)·2^e` and `m·2^(e+j)` are equal,
+and integers embed with their own order -/
+theorem value_representation_independent (m e : Int) (j : Nat) (x y : Int) :
+    Dy.Eqv ⟨m * 2 ^ j, e⟩ ⟨m, e + j⟩ ∧ (Dy.ofInt x < Dy.ofInt y ↔ x < y) ∧ (Dy.Eqv (Dy.ofInt x) (Dy.ofInt y) ↔ x = y) :=
+  ⟨Dy.eqv_shift m e j, Dy.ofInt_lt x y, Dy.ofInt_eqv x y⟩
+
+-- non-vacuity and concrete values: 1.5 = 3·2^51 · 2^-52, -0.0, smallest subnormal 2^-1074, largest subnormal, 2^53
+example : F64.value 0x3ff8000000000000 = ⟨0x18000000000000, -52⟩ := by decide
+example : Dy.Eqv (F64.value 0x3ff8000000000000) ⟨3, -1⟩ := by decide
+example : F64.value 0x8000000000000000 = ⟨0, -1074⟩ ∧ Dy.Eqv (F64.value 0x8000000000000000) (F64.value 0) := by decide
+example : F64.value 1 = ⟨1, -1074⟩ ∧ F64.value 0x000fffffffffffff = ⟨2 ^ 52 - 1, -1074⟩ := by decide
+example : Dy.Eqv (F64.value 0x4340000000000000) (Dy.ofInt (2 ^ 53)) := by decide
+example : F64.isFinite 0x3ff8000000000000 = true ∧ F64.isFinite 0x8000000000000001 = true ∧
+    cmp (.real 0x8000000000000001) (.real 0x3ff8000000000000) = .lt ∧
+    F64.value 0x8000000000000001 < F64.value 0x3ff8000000000000 := by decide
+-- largest subnormal < smallest normal; largest finite < +inf
+example : cmp (.real 0x000fffffffffffff) (.real 0x0010000000000000) = .lt ∧
+    F64.value 0x000fffffffffffff < F64.value 0x0010000000000000 := by decide
+example : F64.isInf 0xfff0000000000000 = true ∧ F64.signBit 0xfff0000000000000 = true ∧
+    F64.isInf 0x7ff0000000000000 = true ∧ F64.signBit 0x7ff0000000000000 = false ∧
+    F64.isFinite 0x7fefffffffffffff = true := by decide
+example : F64.isNaN 0x7ff8000000000000 = true ∧ F64.isNaN 0xfff0000000000001 = true ∧ F64.isNaN 0x7ff0000000000000 = false := by decide
+example : F64.isNaN 0x8000000000000000 = false ∧ (0x8000000000000000 : Nat) < 2 ^ 64 ∧ F64.mag 0x8000000000000000 = 0 := by decide
 
 /-- KNOWN FINDING D45 (kept as a kernel-checked witness): in the *derived* order, used for GROUP BY
 keys, MIN/MAX, PERCENTILE and array_unique, an INT and a REAL are ordered by their type, not by
